@@ -519,8 +519,8 @@ static void coin_patterns(const std::vector<int> &layout, bool rest_matters, std
 //          I values {lowest other party, n}, J lowest other party
 //  1 core  every coin pattern; W on the first value of each pair, every recipient; D every recipient; C every event
 //  0 mini  constant coin vectors; W on the first value of each pair and D, lowest other party only; C at the start of
-//          every own broadcast
-static void single_menu(const Cfg &c, int f, const Ref &ref, Proto &P, int level, std::vector<Dev> &out)
+//          every own broadcast (every second one for n = 7)
+static void single_menu(const Cfg &c, int f, const Ref &ref, Proto &P, int level, int cstride, std::vector<Dev> &out)
 {
 	coin_patterns(P.coin_layout(f), P.rest_matters(f), out, level == 0);
 	int lowest_other = f == 0 ? 1 : 0;
@@ -536,8 +536,9 @@ static void single_menu(const Cfg &c, int f, const Ref &ref, Proto &P, int level
 		}
 		out.push_back(Dev::mk('D', r));
 	}
+	int nb = 0;
 	for (int e = 0; e < ref.events[f]; e++)
-		if (level >= 1 || ref.evkind[f][e] == 'b') out.push_back(Dev::mk('C', e));
+		if (level >= 1 || (ref.evkind[f][e] == 'b' && (nb++ % cstride) == 0)) out.push_back(Dev::mk('C', e));
 	if (level < 2) return;
 	for (int b = 0; b < ref.bcasts[f]; b++)
 	{
@@ -553,20 +554,21 @@ static void single_menu(const Cfg &c, int f, const Ref &ref, Proto &P, int level
 	}
 }
 
-// which menu a configuration gets
+// which menu a configuration gets (-1: fault-free run only)
 static int level_for(const std::string &proto, int n, bool thorough)
 {
-	if (proto == "cdkg") return thorough ? (n <= 4 ? 2 : (n == 5 ? 1 : 0)) : (n <= 4 ? 0 : -1);   // -1: fault-free run only
+	if (proto == "cdkg") return thorough ? (n <= 4 ? 2 : 0) : (n <= 4 ? 0 : -1);
 	if (!thorough) return n <= 4 ? 2 : 1;
-	return n <= 5 ? 3 : (n == 6 ? 1 : 2);
+	return n <= 5 ? 3 : 1;
 }
 
-// reduced menu of party f when a second party g is faulty as well.  small: three deviations, else five
-static void pair_menu(const Cfg &c, int f, int g, const Ref &ref, Proto &P, bool small, std::vector<Dev> &out)
+// reduced menu of party f when a second party g is faulty as well: the library's switch with every coin set, a wrong
+// share to the lowest honest recipient, a crash half way; size 4 adds three inserted broadcasts (lowest honest party, 1, 1)
+// before its last broadcast; size 2 keeps the switch and the crash only
+static void pair_menu(const Cfg &c, int f, int g, const Ref &ref, Proto &P, int size, std::vector<Dev> &out)
 {
 	std::vector<Dev> coins;
 	coin_patterns(P.coin_layout(f), P.rest_matters(f), coins, true);
-	// the library's switch with every coin set
 	for (size_t i = 0; i < coins.size(); i++)
 	{
 		bool c1 = true;
@@ -576,11 +578,11 @@ static void pair_menu(const Cfg &c, int f, int g, const Ref &ref, Proto &P, bool
 		if (c1 && (coins[i].rest == 1 || !P.rest_matters(f))) out.push_back(coins[i]);
 	}
 	int lowest_honest = -1;
-	for (int r = 0; r < c.n; r++) if (r != f && r != g && ref.ucount[f][r]) { lowest_honest = r; break; }
-	if (lowest_honest >= 0) out.push_back(Dev::mk('W', lowest_honest, 0));
+	for (int r = 0; r < c.n; r++) if (r != f && r != g) { lowest_honest = r; break; }
 	if (ref.events[f] > 0) out.push_back(Dev::mk('C', ref.events[f] / 2));
-	if (small) return;
-	if (lowest_honest >= 0) out.push_back(Dev::mk('D', lowest_honest));
+	if (size <= 2) return;
+	if (lowest_honest >= 0 && ref.ucount[f][lowest_honest]) out.push_back(Dev::mk('W', lowest_honest, 0));
+	if (size <= 3) return;
 	if (ref.bcasts[f] > 0 && lowest_honest >= 0) out.push_back(Dev::mk('J', ref.bcasts[f] - 1, lowest_honest));
 }
 
@@ -636,16 +638,19 @@ static bool take(const std::string &id)
 	return mine;
 }
 
-static void run_config(Cfg c, int level, bool small_pairs)
+static void run_config(Cfg c, int level, int pair_size)
 {
-	// fault-free reference run: judged by one shard, measured by all (it defines the alphabet)
+	// fault-free reference run: judged by one shard; run by every shard that enumerates faults (it defines the alphabet)
 	Ref ref;
+	const bool faults = !(c.t == 0 || c.variant != 0 || level < 0);
 	{
 		World W(c, &G);
+		bool mine = take(W.id());
+		if (!mine && !faults) return;
 		std::unique_ptr<Proto> P(make_proto(c, seed_of(c)));
 		run_world(W, *P, seed_of(c));
 		for (int i = 0; i < c.n; i++) ref.events.push_back(W.ps[i].events), ref.bcasts.push_back(W.ps[i].bcasts), ref.ucount.push_back(W.ps[i].ucount), ref.evkind.push_back(W.ps[i].evkind);
-		if (take(W.id()))
+		if (mine)
 		{
 			printf("{\"t\":\"at\",\"case\":\"%s\"}\n", jesc(W.id()).c_str());
 			fflush(stdout);
@@ -653,7 +658,7 @@ static void run_config(Cfg c, int level, bool small_pairs)
 			if (c.variant == 0 && c.dealer <= 0) R->sample(W.id(), "reference run: events per party " + str(ref.events[0]) + ", own broadcasts " + str(ref.bcasts[0]) + ", msgs " + str(W.msgs) + ", vsecs " + str(W.vsecs));
 		}
 	}
-	if (c.t == 0 || c.variant != 0 || level < 0) return;
+	if (!faults) return;
 	std::unique_ptr<Proto> P0(make_proto(c, seed_of(c)));
 	auto one = [&](const std::vector<std::pair<int, Dev> > &faults) {
 		World W(c, &G);
@@ -670,16 +675,17 @@ static void run_config(Cfg c, int level, bool small_pairs)
 	for (int f = 0; f < c.n; f++)
 	{
 		std::vector<Dev> menu;
-		single_menu(c, f, ref, *P0, level, menu);
+		single_menu(c, f, ref, *P0, level, (level == 0 && c.n >= 7) ? 2 : 1, menu);
 		for (size_t k = 0; k < menu.size(); k++)
 			one(std::vector<std::pair<int, Dev> >(1, std::make_pair(f, menu[k])));
 	}
-	if (c.t >= 2)
+	// dealer based sharing: pairs for the dealers 0, n/2, n-1 only (stated cap)
+	if (c.t >= 2 && (c.dealer < 0 || c.dealer == 0 || c.dealer == c.n / 2 || c.dealer == c.n - 1))
 		for (int f = 0; f < c.n; f++)
 			for (int g = f + 1; g < c.n; g++)
 			{
 				std::vector<Dev> mf, mg;
-				pair_menu(c, f, g, ref, *P0, small_pairs, mf), pair_menu(c, g, f, ref, *P0, small_pairs, mg);
+				pair_menu(c, f, g, ref, *P0, pair_size, mf), pair_menu(c, g, f, ref, *P0, pair_size, mg);
 				for (size_t a = 0; a < mf.size(); a++)
 					for (size_t b = 0; b < mg.size(); b++)
 					{
@@ -720,6 +726,7 @@ int main(int argc, char **argv)
 		if (!make_proto(c, 1)) { fprintf(stdout, "{\"t\":\"error\",\"what\":\"unknown --proto\"}\n"); return 2; }
 		int variants = c.t == 0 ? 3 : 1;
 		const int level = A.has("level") ? (int)A.geti("level", 0) : level_for(proto, c.n, thorough);
+		const int pair_size = proto == "cdkg" ? 2 : (proto == "pvss" ? 3 : 4);
 		if (proto == "pvss")
 		{
 			for (c.dealer = 0; c.dealer < c.n; c.dealer++)
@@ -728,11 +735,11 @@ int main(int argc, char **argv)
 					// faults are enumerated for the random secret; the special secrets get the fault-free run
 					Cfg cc = c;
 					cc.variant = cc.sigma_kind == 0 ? 0 : 1;
-					run_config(cc, level, proto == "cdkg");
+					run_config(cc, level, pair_size);
 				}
 		}
 		else
-			for (c.variant = 0; c.variant < variants; c.variant++) run_config(c, level, proto == "cdkg");
+			for (c.variant = 0; c.variant < variants; c.variant++) run_config(c, level, pair_size);
 	}
 	rep.bound = proto + (thorough ? ": n<=7" : ": n<=5") + ", |F|<=t, one deviation per faulty party";
 	for (std::map<std::string, uint64_t>::iterator it = g_kind_count.begin(); it != g_kind_count.end(); ++it) rep.counters["dev_" + it->first] = it->second;
